@@ -43,17 +43,28 @@ def _targets():
                           lambda mods, v, q: mods["oil"].b_o_Standing(v["T"], q, v["api"], v["gg"], v["rsi"])),
         "Fluid.oil_viscosity": ("fluid", lambda m, v, p: m.Fluid(v["T"], v["api"], v["gg"], v["rsi"], v["S"]).oil_viscosity(p),
                                 lambda mods, v, q: mods["oil"].viscosity_beggs_robinson(v["T"], q, v["api"], v["gg"], v["rsi"])),
+        # the gas methods: the stand-alone gas correlations (scalar-only, a root finder inside) are recording stubs here
+        "Fluid.gas_FVF": ("fluid", lambda m, v, p: m.Fluid(v["T"], v["api"], v["gg"], v["rsi"], v["S"]).gas_FVF(p, GAS_TPC, GAS_PPC),
+                          lambda mods, v, q: mods["gas_ufs"]["b_factor_DAK"](v["T"], q, GAS_TPC, GAS_PPC)),
+        "Fluid.gas_viscosity": ("fluid", lambda m, v, p: m.Fluid(v["T"], v["api"], v["gg"], v["rsi"], v["S"]).gas_viscosity(p, GAS_TPC, GAS_PPC),
+                                lambda mods, v, q: mods["gas_ufs"]["viscosity_Sutton"](v["T"], q, GAS_TPC, GAS_PPC, v["gg"])),
     }
+
+
+GAS_TPC, GAS_PPC = K("-72.2"), K("653")
 
 
 def _mods():
     from ..shims import pd_shim
     oil = load_sym("bluebonnet.fluids.oil")
     water = load_sym("bluebonnet.fluids.water")
+    import bluebonnet.fluids.gas as _rg
+    from .c13 import _uf
+    gas_ufs = {n: _uf(n, like=getattr(_rg, n)) for n in ("b_factor_DAK", "viscosity_Sutton")}
     fluid = load_sym("bluebonnet.fluids.fluid", pd=pd_shim.PD, b_o_Standing=oil.b_o_Standing,
                      viscosity_beggs_robinson=oil.viscosity_beggs_robinson, pressure_bubblepoint_Standing=oil.pressure_bubblepoint_Standing,
-                     b_water_McCain=water.b_water_McCain, viscosity_water_McCain=water.viscosity_water_McCain, **SS.rebind())
-    return {"oil": oil, "water": water, "fluid": fluid}
+                     b_water_McCain=water.b_water_McCain, viscosity_water_McCain=water.viscosity_water_McCain, **gas_ufs, **SS.rebind())
+    return {"oil": oil, "water": water, "fluid": fluid, "gas_ufs": gas_ufs}
 
 
 # ------------------------------------------------------------------ replay
@@ -62,6 +73,7 @@ def replay(model, target="oil.b_o_Standing", dtype="f8", n=2, intparams=False, s
     import numpy as np
     import bluebonnet.fluids.oil as oil
     import bluebonnet.fluids.water as water
+    import bluebonnet.fluids.gas as gas
     from bluebonnet.fluids import Fluid
     m = model_floats(model, ["T", "api", "gg", "rsi", "S"] + [f"e{j}" for j in range(n)],
                      default=dict(T=200.0, api=35.0, gg=0.8, rsi=650.0, S=5.0, **{f"e{j}": 1000.0 * (j + 1) for j in range(n)}))
@@ -96,6 +108,8 @@ def replay(model, target="oil.b_o_Standing", dtype="f8", n=2, intparams=False, s
         "Fluid.water_viscosity": (fl.water_viscosity, lambda p: water.viscosity_water_McCain(T_, p, S)),
         "Fluid.oil_FVF": (fl.oil_FVF, lambda p: oil.b_o_Standing(T_, p, api, gg, rsi)),
         "Fluid.oil_viscosity": (fl.oil_viscosity, lambda p: oil.viscosity_beggs_robinson(T_, p, api, gg, rsi)),
+        "Fluid.gas_FVF": (lambda p: fl.gas_FVF(p, -72.2, 653.0), lambda p: gas.b_factor_DAK(T_, p, -72.2, 653.0)),
+        "Fluid.gas_viscosity": (lambda p: fl.gas_viscosity(p, -72.2, 653.0), lambda p: gas.viscosity_Sutton(T_, p, -72.2, 653.0, gg)),
     }
     fa, fs = table[target]
     problems = []
